@@ -1,8 +1,12 @@
 /-
   C02 — Formatting a go.mod/go.work file preserves its meaning and is idempotent.
-  Property theorems only; helper lemmas live in ModVerif/Proofs/Modfile*.lean.
-  The three main statements (format_parse_syntax, format_idempotent, format_preserves_directives)
-  are not yet proved: their full statements and the staged plan are in lean/PENDING.md.
+  Property theorems only; helper lemmas live in ModVerif/Proofs/Modfile*.lean (the C02 development is
+  ModVerif/Proofs/ModfileFmt*.lean).
+  Status: stages 1–2 of DESIGN §6 C02 are proved for every input (lex_emits_TokOK, relex_one, tokens_relex,
+  autoQuote_single_token, unquote_quote, parseString_autoQuote); the three main statements are proved for
+  inputs without end-of-line comments (format_parse_syntax_partial, format_idempotent_partial,
+  format_preserves_directives_partial); the idempotence clause is FALSE in general
+  (C02_violated_format_not_idempotent).  What remains is listed in lean/PENDING.md.
 -/
 import ModVerif.Model.Modfile.Work
 import ModVerif.Proofs.ModfilePrint
